@@ -23,6 +23,11 @@ PY = "/venv/bin/python"
 GUARD = "TLEXPORT_VERIF"
 
 _loaded = None
+RUN_TIMEOUT_S = float(os.environ.get("VERIF_RUN_TIMEOUT_S", "20"))
+
+
+class RunTimeout(BaseException):
+    pass
 
 
 def load():
@@ -143,14 +148,30 @@ def run_tlexport(capture: bytes, keylog, args=(), infile="in.pcapng", reset=True
     sys.stderr = _devnull
     os.chdir(cwd or d)
     status, detail = "ok", ""
+    # watchdog: an execution normally takes milliseconds; a run that has not returned after RUN_TIMEOUT_S seconds is reported
+    # as status 'hang' (and its memory growth is bounded by the address-space limit set in the pool workers)
+    import signal
+
+    def _on_alarm(signum, frame):
+        raise RunTimeout()
+    use_alarm = hasattr(signal, "setitimer") and __import__("threading").current_thread() is __import__("threading").main_thread()
+    if use_alarm:
+        old_handler = signal.signal(signal.SIGALRM, _on_alarm)
+        signal.setitimer(signal.ITIMER_REAL, RUN_TIMEOUT_S)
     try:
         m.run()
+    except RunTimeout:
+        status = "hang"
+        detail = f"run() did not return within {RUN_TIMEOUT_S} s"
     except SystemExit as e:
         status = f"exit:{e.code}"
     except BaseException as e:     # noqa - the status of the execution, not an error of ours
         status = f"exc:{type(e).__name__}"
         detail = traceback.format_exc(limit=6)
     finally:
+        if use_alarm:
+            signal.setitimer(signal.ITIMER_REAL, 0)
+            signal.signal(signal.SIGALRM, old_handler)
         sys.argv, sys.stdout, sys.stderr = old_argv, old_out, old_err
         os.chdir(old_cwd)
     out = None
